@@ -47,8 +47,41 @@ def expected_stream(cfg):
     return out, None
 
 
+def apply_pre(cfg, vals):
+    """Sequential semantics of the extra stages a configuration puts between the mapped function and prefetch."""
+    n = len(vals)
+    for st in cfg.get('pre', []):
+        if st == 'tile2':
+            vals = vals + vals
+        elif st == 'concat_map':
+            vals = vals + [v + 1000 for v in vals]
+        elif st == 'slice_rev':
+            vals = vals[::-1]
+        elif st == 'sort':
+            vals = sorted(vals, reverse=True)
+        elif st == 'intersperse_map':
+            a, b = vals, [v + 1000 for v in vals]
+            order = sorted([((j + 1) / len(p), d, j) for d, p in enumerate((a, b)) for j in range(len(p))])
+            vals = [(a, b)[d][j] for _, d, j in order]
+        elif st in ('zip_map', 'key_zip_map'):
+            vals = [[v, v + 1000] for v in vals]
+        elif st == 'items':
+            vals = [[f'k{i}', v] for i, v in enumerate(vals)]
+        elif st == 'cache':
+            pass
+        elif isinstance(st, list) and st[0] == 'batch':
+            vals = [vals[i:i + st[1]] for i in range(0, len(vals), st[1])]
+        else:
+            raise ValueError(st)
+    return vals
+
+
 def expected_round(cfg, consumer):
     vals, exc = expected_stream(cfg)
+    if cfg.get('pre') and exc is None and 'cache' != cfg['pre'][0]:
+        vals = apply_pre(cfg, vals)
+    elif cfg.get('pre') and exc is None:
+        vals = apply_pre(cfg, vals)
     for st in cfg.get('post', []):
         if st == 'tile2':
             vals, exc = (vals + vals, None) if exc is None else (vals, exc)
@@ -296,6 +329,27 @@ def run_matrix(prop, oracle_name, jobs, result, label, cap=60000):
     cov.setdefault('capped_configurations', []).extend(capped)
     cov.setdefault('samples', []).extend(common.sample(samples, 3))
     return total
+
+
+def _cross_task(cfg):
+    a = M.explore(cfg, oracle_values, 'P', None, 100000)
+    b = M.explore(cfg, oracle_values, 'D', None, 100000)
+    c = M.explore(cfg, oracle_values, 'B', 10 ** 6, 100000) if cfg['w'] == 1 else None     # no reduction at all
+    return cfg, set(a[2]), set(b[2]), (set(c[2]) if c else None), a[0]['executions'], b[0]['executions']
+
+
+def crosscheck(result):
+    """Soundness cross-check of the reductions: the same small configurations explored with plain sleep sets
+    (mode P), with DPOR (mode D) and without any reduction must produce the same set of outcomes."""
+    cfgs = [dict(entry='prefetch', n=2, w=1, b=1), dict(entry='prefetch', n=2, w=2, b=2, fail_fn={1: 'ValueError'}),
+            dict(entry='prefetch', n=3, w=1, b=1, consumers=[['close', 1]]), dict(entry='parmap', n=3, w=2, b=2),
+            dict(entry='prefetch', n=3, w=2, b=2, fail_fn={0: 'ValueError'}, backend='mp')]
+    rows = []
+    for cfg, a, b, c, na, nb in common.pmap(_cross_task, cfgs):
+        rows.append({'cfg': cfg, 'executions_sleep_sets': na, 'executions_dpor': nb, 'outcomes': len(a)})
+        if a != b or (c is not None and c != a):
+            result.harness_errors.append(f'reduction cross-check failed for {cfg}: sleep sets {a}, DPOR {b}, none {c}')
+    result.coverage['reduction_crosscheck'] = rows
 
 
 def finish(result, floor_exec):
